@@ -813,21 +813,21 @@ def SCacheOK (c : Cls K) (k : SCache) : Prop :=
 
 theorem sleSetupC_ok (c : Cls K) (cache : SCache) (hc : SCacheOK c cache) (r : Rows K) (j : Nat) :
     SCacheOK c (sleSetupC c cache r j).1 := by
+  have hfresh : ∀ k : SCache, k.nz = some (nzKeys c (tab c.n fun i => get r.l i + get r.s i)) →
+      k.idx = lleIndex c (tab c.n fun i => get r.l i + get r.s i) → SCacheOK c k := by
+    intro k h1 h2 nz hnz
+    rw [h1] at hnz
+    simp only [Option.some.injEq] at hnz
+    subst hnz
+    rw [h2]; exact lleIndex_eq_filter_nzKeys c _
   unfold sleSetupC
   simp only
   split
   · split
     · split <;> exact hc
     · split
-      · intro nz hnz; exact hc nz hnz
-      · have hfresh : ∀ k : SCache, k.nz = some (nzKeys c (tab c.n fun i => get r.l i + get r.s i)) →
-            k.idx = lleIndex c (tab c.n fun i => get r.l i + get r.s i) → SCacheOK c k := by
-          intro k h1 h2 nz hnz
-          rw [h1] at hnz
-          simp only [Option.some.injEq] at hnz
-          subst hnz
-          rw [h2]; exact lleIndex_eq_filter_nzKeys c _
-        split <;> exact hfresh _ rfl rfl
+      · exact hfresh _ rfl rfl
+      · split <;> exact hfresh _ rfl rfl
   · exact hc
 
 /-! ### auxiliary facts formerly counted among the property theorems (clip lemma, phase-fraction clip, lever-rule
